@@ -67,7 +67,8 @@ Judge(r) ==
                            ELSE [ok |-> TRUE, why |-> ""]]
       all == <<verdictCheck>> \o conflictChecks \o machineChecks \o (IF r.verdict = "ok" THEN tableChecks ELSE <<>>)
       res == FirstBad(all)
-  IN [id |-> r.id, ok |-> res.ok, why |-> res.why, cf |-> cf,
+      bad == SelectSeq(all, LAMBDA c : ~c.ok)
+  IN [id |-> r.id, ok |-> res.ok, why |-> res.why, whys |-> [k \in DOMAIN bad |-> bad[k].why], cf |-> cf,
       nlalr |-> Cardinality(LS), ncanon |-> Cardinality(CC),
       classes |-> ConflictClasses(G, LS)]
 
